@@ -1,10 +1,296 @@
-//! C13 — not built yet.
+//! C13 Serial-based synchronisation is exact or refused.
+//!
+//! A generated history of validation results is installed into a real `SharedHistory`; after
+//! every step a client presents (session, serial) pairs through the RTR source (`diff`) and
+//! through `GET /json-delta`. The model keeps every issued (serial -> data set).
+
+use proptest::prelude::*;
+use routinator::config::Config;
+use routinator::payload::SharedHistory;
+use rpki::rtr::server::NotifySender;
+use serde::{Deserialize, Serialize};
 
 use crate::core::*;
+use crate::hist::*;
+use crate::pay::*;
 
-pub const IMPLEMENTED: bool = false;
+pub const KEY_HALF_SPACE: &str = "C13/empty-delta-for-unissued-serial/retained=1/offset=2^31";
+pub const KEY_SERIAL0: &str = "C13/refused-in-window/client-serial=0/history-not-full";
 
-pub fn run(_ctx: &Ctx, _rep: &mut Report, _replay: Option<&serde_json::Value>) {
-    eprintln!("C13: check not implemented");
-    std::process::exit(2);
+#[derive(Serialize, Deserialize, Clone, Debug)]
+pub struct Case {
+    /// history-size (>= 1; 0 belongs to C14).
+    pub keep: usize,
+    /// Validation results in order; the first is the initial data set (serial 0).
+    pub sets: Vec<MSet>,
+    /// Extra client serials, as offsets added to the current serial (wrapping).
+    pub extra: Vec<u32>,
+    /// Extra foreign sessions, as offsets added to the own session (wrapping, non-zero).
+    pub sessions: Vec<u64>,
+    /// Key of the known-finding shape that is NOT excluded (directed representatives only).
+    #[serde(default)]
+    pub known: Option<String>,
+}
+
+/// Offsets (client serial minus current serial, wrapping) that are always queried.
+fn boundary_offsets(keep: usize) -> Vec<u32> {
+    let k = keep as u32;
+    let mut v: Vec<u32> = Vec::new();
+    for d in 0..=(k + 2) {
+        v.push(0u32.wrapping_sub(d)); // S, S-1, ..., S-(K+2)
+    }
+    v.extend([1, 2, 3, 0x7FFF_FFFF, 0x8000_0000, 0x8000_0001, 0x7FFF_FFFE]);
+    for d in 0..=(k + 1) {
+        v.push(0x8000_0000u32.wrapping_sub(d)); // -2^31 - d  (== 2^31 - d)
+        v.push(0x8000_0000u32.wrapping_add(d));
+    }
+    v.push(u32::MAX);
+    v.sort_unstable();
+    v.dedup();
+    v
+}
+
+fn offset_class(off: u32) -> &'static str {
+    match off {
+        0 => "0",
+        0x8000_0000 => "2^31",
+        1..=0x7FFF_FFFF => "ahead",
+        _ => "behind",
+    }
+}
+
+struct World<'a> {
+    http: &'a Http,
+    config: &'a Config,
+}
+
+fn judge(world: &World<'_>, case: &Case, rep_excl: &std::cell::RefCell<std::collections::BTreeMap<&'static str, u64>>, info: &mut CaseInfo) -> Verdict {
+    let keep = case.keep;
+    if keep == 0 || world.config.history_size != keep {
+        return Verdict::Dropped("bad_keep".into());
+    }
+    info.class(format!("keep={}", keep));
+    let history = SharedHistory::from_config(world.config);
+    let notify = NotifySender::new();
+    let handler = world.http.handler(world.config, &history, &notify);
+    let session = history.read().session();
+    let sess16 = session as u16;
+    let offsets = {
+        let mut o = boundary_offsets(keep);
+        o.extend(case.extra.iter().copied());
+        o
+    };
+    let mut issued: Vec<MSet> = Vec::new();
+    let mut merged_served = false;
+    let mut seen: std::collections::BTreeSet<&'static str> = Default::default();
+
+    for (step, set) in case.sets.iter().enumerate() {
+        install(&history, world.config, set);
+        if issued.last() != Some(set) {
+            issued.push(set.clone());
+        }
+        let s = (issued.len() - 1) as u32;
+        let cur = issued.last().unwrap();
+        let retained = (s as usize).min(keep);
+        let got_serial = serial_of(&history);
+        if got_serial != s {
+            return Verdict::fail("C13/model-serial-mismatch", format!("step {}: history serial {} but {} changes so far", step, got_serial, s));
+        }
+
+        for (qi, off) in offsets.iter().enumerate() {
+            let c = s.wrapping_add(*off);
+            let dist = s.wrapping_sub(c);
+            let is_issued = c <= s;
+            // Statement: current serial and the last history-size serials (current included) must be served.
+            let must_serve = is_issued && (dist as usize) < keep;
+            let shape_half = retained == 1 && *off == 0x8000_0000;
+            let shape_serial0 = c == 0 && s >= 2 && (s as usize) < keep;
+            if shape_half || shape_serial0 {
+                let key = if shape_half { KEY_HALF_SPACE } else { KEY_SERIAL0 };
+                if case.known.as_deref() != Some(key) {
+                    *rep_excl.borrow_mut().entry(key).or_default() += 1;
+                    continue;
+                }
+            }
+            let where_ = |obs: &str| format!("step {} S={} retained={} keep={} client serial {} (offset {:#x}) via {}", step, s, retained, keep, c, off, obs);
+
+            // --- RTR source ---
+            match rtr_diff(&history, sess16, c) {
+                Some(d) => {
+                    if !is_issued {
+                        let key = if shape_half { KEY_HALF_SPACE.to_string() } else { format!("C13/delta-for-unissued-serial/retained={}/offset={}", retained.min(3), offset_class(*off)) };
+                        return Verdict::fail(key, format!("{}: got a delta ({} actions, tagged serial {}) for a serial this session never issued", where_("rtr"), d.actions.len(), d.serial));
+                    }
+                    if d.serial != s || d.session != sess16 {
+                        return Verdict::fail("C13/wrong-tag", format!("{}: delta tagged ({}, {}) but current is ({}, {})", where_("rtr"), d.session, d.serial, sess16, s));
+                    }
+                    if c == s && !d.actions.is_empty() {
+                        return Verdict::fail("C13/current-serial-nonempty", format!("{}: {} actions for the current serial", where_("rtr"), d.actions.len()));
+                    }
+                    match issued[c as usize].apply(&d.actions) {
+                        Ok(r) if r == *cur => {}
+                        Ok(r) => return Verdict::fail("C13/delta-not-exact", format!("{}: data(c)+delta={:?} but current={:?}", where_("rtr"), r, cur)),
+                        Err(e) => return Verdict::fail("C13/delta-not-applicable", format!("{}: {}", where_("rtr"), e)),
+                    }
+                    if dist >= 2 && !d.actions.is_empty() {
+                        merged_served = true;
+                    }
+                    seen.insert(match dist {
+                        0 => "q:served_current",
+                        1 => "q:served_front",
+                        _ => "q:served_merged",
+                    });
+                }
+                None => {
+                    if must_serve {
+                        let key = if shape_serial0 { KEY_SERIAL0.to_string() } else { format!("C13/refused-in-window/distance={}", dist.min(3)) };
+                        return Verdict::fail(key, format!("{}: refused although the serial is one of the last {} issued", where_("rtr"), keep));
+                    }
+                    seen.insert(if !is_issued {
+                        if *off == 0x8000_0000 {
+                            "q:refused_half_space"
+                        } else if *off < 0x8000_0000 {
+                            "q:refused_future"
+                        } else {
+                            "q:refused_never_issued_behind"
+                        }
+                    } else {
+                        "q:refused_too_old"
+                    });
+                }
+            }
+            // foreign RTR session: always refused
+            if qi % 4 == 0 {
+                for fs in [sess16.wrapping_add(1), sess16 ^ 0x8000] {
+                    if rtr_diff(&history, fs, c).is_some() {
+                        return Verdict::fail("C13/foreign-session-served/rtr", format!("{}: session {} (own {}) got a delta", where_("rtr"), fs, sess16));
+                    }
+                }
+                seen.insert("q:refused_foreign_session_rtr");
+            }
+
+            // --- HTTP /json-delta ---
+            let doc = match get_delta(world.http, &handler, session, c) {
+                Ok(d) => d,
+                Err(e) => return Verdict::fail("C13/http-bad-response", format!("{}: {}", where_("http"), e)),
+            };
+            if doc.session != session || doc.serial != s {
+                return Verdict::fail("C13/wrong-tag", format!("{}: document tagged ({}, {}) but current is ({}, {})", where_("http"), doc.session, doc.serial, session, s));
+            }
+            if doc.reset {
+                if must_serve {
+                    let key = if shape_serial0 { KEY_SERIAL0.to_string() } else { format!("C13/refused-in-window/distance={}", dist.min(3)) };
+                    return Verdict::fail(key, format!("{}: reset document although the serial is one of the last {} issued", where_("http"), keep));
+                }
+                if !doc.withdrawn.is_empty() || MSet::from_items(doc.announced.iter().cloned()) != *cur || doc.announced.len() != cur.len() {
+                    return Verdict::fail("C13/reset-not-current", format!("{}: reset document does not list the current data set: {:?} vs {:?}", where_("http"), doc.announced, cur));
+                }
+            } else {
+                if !is_issued {
+                    let key = if shape_half { KEY_HALF_SPACE.to_string() } else { format!("C13/delta-for-unissued-serial/retained={}/offset={}", retained.min(3), offset_class(*off)) };
+                    return Verdict::fail(key, format!("{}: delta document for a serial this session never issued", where_("http")));
+                }
+                if doc.from_serial != Some(c) {
+                    return Verdict::fail("C13/wrong-tag", format!("{}: fromSerial {:?}", where_("http"), doc.from_serial));
+                }
+                let actions = doc.actions();
+                if c == s && !actions.is_empty() {
+                    return Verdict::fail("C13/current-serial-nonempty", format!("{}: {} actions for the current serial", where_("http"), actions.len()));
+                }
+                match issued[c as usize].apply(&actions) {
+                    Ok(r) if r == *cur => {}
+                    Ok(r) => return Verdict::fail("C13/delta-not-exact", format!("{}: data(c)+delta={:?} but current={:?}", where_("http"), r, cur)),
+                    Err(e) => return Verdict::fail("C13/delta-not-applicable", format!("{}: {}", where_("http"), e)),
+                }
+            }
+            // foreign HTTP sessions (same RTR low bits included): always the reset document
+            if qi % 4 == 0 {
+                let mut foreign: Vec<u64> = vec![session.wrapping_add(1 << 16), session.wrapping_sub(1 << 16), session.wrapping_add(1), session & 0xFFFF];
+                foreign.extend(case.sessions.iter().map(|d| session.wrapping_add(*d)));
+                for fs in foreign {
+                    if fs == session {
+                        continue;
+                    }
+                    match get_delta(world.http, &handler, fs, c) {
+                        Ok(d) if d.reset && d.session == session && d.serial == s && MSet::from_items(d.announced.iter().cloned()) == *cur => {}
+                        Ok(d) => {
+                            return Verdict::fail(
+                                "C13/foreign-session-served/http",
+                                format!("{}: session {} (own {}) answered reset={} session={} serial={} with {} announced / {} withdrawn", where_("http"), fs, session, d.reset, d.session, d.serial, d.announced.len(), d.withdrawn.len()),
+                            )
+                        }
+                        Err(e) => return Verdict::fail("C13/http-bad-response", format!("{}: foreign session {}: {}", where_("http"), fs, e)),
+                    }
+                }
+                seen.insert("q:refused_foreign_session_http");
+            }
+        }
+    }
+    for c in seen {
+        info.class(c);
+    }
+    let changes = issued.len().saturating_sub(1);
+    info.class(match changes {
+        0 => "changes=0",
+        1 => "changes=1",
+        2..=5 => "changes=2-5",
+        _ => "changes=6+",
+    });
+    info.class(if changes > keep { "history_overflowed" } else { "history_not_full" });
+    info.nt(merged_served);
+    Verdict::Pass
+}
+
+pub fn case_strategy(max_updates: usize) -> impl Strategy<Value = Case> {
+    (
+        prop::sample::select(vec![1usize, 2, 3, 10]),
+        history_strategy(1, max_updates + 1, 8, 30),
+        prop::collection::vec(prop_oneof![any::<u32>(), (0u32..64).prop_map(|d| 0u32.wrapping_sub(d)), (0u32..64).prop_map(|d| 0x8000_0000u32.wrapping_add(d))], 0..6),
+        prop::collection::vec(prop_oneof![1u64..=u64::MAX, (1u64..1 << 20).prop_map(|d| d << 16)], 0..3),
+    )
+        .prop_map(|(keep, sets, extra, sessions)| Case { keep, sets, extra, sessions, known: None })
+}
+
+fn origin(a: u8, asn: u32) -> MItem {
+    MItem::Origin(MOrigin::new(std::net::IpAddr::V4(std::net::Ipv4Addr::new(10, a, 0, 0)), 16, None, asn))
+}
+
+/// Directed representatives, one per known-finding key (plus a second retained count).
+fn directed() -> Vec<(&'static str, Case)> {
+    let sets = |n: usize| -> Vec<MSet> { (0..=n).map(|i| MSet::from_items((0..=i as u8).map(|a| origin(a, 64496)))).collect() };
+    vec![
+        ("known-half-space-first-change", Case { keep: 10, sets: sets(1), extra: vec![], sessions: vec![], known: Some(KEY_HALF_SPACE.into()) }),
+        ("known-half-space-keep1", Case { keep: 1, sets: sets(3), extra: vec![], sessions: vec![], known: Some(KEY_HALF_SPACE.into()) }),
+        ("known-serial0", Case { keep: 3, sets: sets(2), extra: vec![], sessions: vec![], known: Some(KEY_SERIAL0.into()) }),
+    ]
+}
+
+pub fn run(ctx: &Ctx, rep: &mut Report, replay: Option<&serde_json::Value>) {
+    rep.rule("histories of 1..=41 (thorough 1..=121) validation results (30 % repeat the previous data set) over a universe of <= 8 origins/router keys, history-size in {1,2,3,10}, installed through SharedHistory::update + mark_update_done with SLURM assertions as data carrier; after EVERY step the client serials S+d for all boundary offsets d (0,-1..-(K+2),+1,+2,+3,2^31,2^31+-1..+-(K+1),2^32-1) plus generated random offsets are presented via PayloadSource::diff and GET /json-delta, with own and foreign sessions (own+-2^16 i.e. same RTR low bits, own+1, low 16 bits only, random); non-trivial = some query at distance >= 2 inside the window was answered with a non-empty merged delta; distinct by serialised case");
+    rep.assume("serials start at 0 in every session and the history is far shorter than 2^31, so 'issued' = client serial <= current serial; a server serial that has itself wrapped is not reachable through the public API (stated limitation of DESIGN C13)");
+    rep.assume("ASPAs cannot be installed through local exceptions; ASPA deltas/merges are covered at delta level by C11/C12");
+    rep.assume("history-size 0 is excluded here (owned by C14)");
+    let env = Env::new(ctx.scratch());
+    let http = Http::new();
+    let configs: std::collections::BTreeMap<usize, Config> = [1usize, 2, 3, 10]
+        .iter()
+        .map(|k| (*k, env.config(&[], &["--history".into(), k.to_string()]).unwrap_or_else(|e| panic!("config: {}", e))))
+        .collect();
+    let excl = std::cell::RefCell::new(std::collections::BTreeMap::new());
+    let prop = |case: &Case, info: &mut CaseInfo| -> Verdict {
+        let Some(config) = configs.get(&case.keep) else { return Verdict::Dropped("bad_keep".into()) };
+        judge(&World { http: &http, config }, case, &excl, info)
+    };
+    if let Some(v) = replay {
+        let t: Tagged<Case> = serde_json::from_value(v.clone()).expect("replay");
+        run_case(ctx, rep, &t.sub, &t.case, prop);
+        return;
+    }
+    for (name, case) in directed() {
+        run_case(ctx, rep, name, &case, prop);
+    }
+    run_prop(ctx, rep, "history", ctx.tier.pick(1_500, 20_000), case_strategy(ctx.tier.pick(40, 120)), prop);
+    for (k, n) in excl.into_inner() {
+        *rep.excluded_known.entry(k.to_string()).or_default() += n;
+    }
 }
